@@ -97,6 +97,16 @@ def known_findings():
 
 
 # ----------------------------------------------------------------------------------------- TLC
+# -Xss must be on the java command line: the launcher sizes the main thread (which computes the initial states and evaluates
+# the constant definitions) from its own arguments; a -Xss in JAVA_TOOL_OPTIONS only reaches the worker threads, and the main
+# thread then overflows its 8 MB stack or not depending on how much of the evaluator the JIT has compiled (flaky empty runs)
+def tlc_cmd(heap=None, xss="1g"):
+    c = ["java", "-Xss" + xss, "-XX:+UseParallelGC"]
+    if heap:
+        c.append("-Xmx" + heap)
+    return c + ["-cp", "/opt/veriftools/tla/tla2tools.jar:/opt/veriftools/tla/CommunityModules-deps.jar", "tlc2.TLC"]
+
+
 def tlc_env(extra=None):
     e = {"JAVA_TOOL_OPTIONS": "-Xss1g"}
     if extra:
@@ -111,7 +121,7 @@ def run_tlc(cwd, module, cfg, workers, timeout, env=None, cont=False, tlines=Non
     cmd = ["timeout", str(timeout), "java", "-Xmx" + heap, "-XX:+UseParallelGC", "-cp", "/opt/veriftools/tla/tla2tools.jar:/opt/veriftools/tla/CommunityModules-deps.jar",
            "tlc2.TLC"]
     # use the wrapper's classpath instead if the jar layout differs
-    cmd = ["timeout", str(timeout), "tlc", "-workers", str(workers), "-metadir", meta, "-cleanup", "-noGenerateSpecTE",
+    cmd = ["timeout", str(timeout)] + tlc_cmd(heap) + ["-workers", str(workers), "-metadir", meta, "-cleanup", "-noGenerateSpecTE",
            "-config", cfg]
     if cont:
         cmd.append("-continue")
@@ -176,7 +186,7 @@ def run_tlc_retry(*a, **kw):
     """TLC occasionally ends at once with a single state and exit code 0 when started right after another instance; retry once"""
     r = run_tlc(*a, **kw)
     for attempt in range(3):
-        if not (r["rc"] == 0 and r["generated"] < 2 and not r["errors"]):
+        if not (r["rc"] == 0 and r["generated"] < 2):
             break
         log("[tlc] suspicious empty run, retrying: %s" % " | ".join(r["log"][-6:])[:600])
         try:
@@ -571,7 +581,7 @@ def replay_e1(prop, path):
 def tlc_lines(cwd, module, cfg, tag, out_path, workers=8, timeout=3000):
     """run a generator module; lines tagged `tag` are decoded (one JSON string each) and written to out_path"""
     meta = os.path.join(cwd, "meta_" + os.path.splitext(cfg)[0])
-    p = subprocess.Popen(["timeout", str(timeout), "tlc", "-workers", str(workers), "-metadir", meta, "-cleanup", "-noGenerateSpecTE", "-config", cfg, module],
+    p = subprocess.Popen(["timeout", str(timeout)] + tlc_cmd() + ["-workers", str(workers), "-metadir", meta, "-cleanup", "-noGenerateSpecTE", "-config", cfg, module],
                          cwd=cwd, stdout=subprocess.PIPE, stderr=subprocess.STDOUT, text=True, env=dict(os.environ, JAVA_TOOL_OPTIONS="-Xss1g"))
     n = 0
     st = {"generated": 0, "distinct": 0, "errors": []}
@@ -1620,7 +1630,7 @@ def check_c19(tier):
         open(os.path.join(d, "regex.cfg"), "w").write(cfg)
         tests = os.path.join(d, "tests.ndjson")
         meta = os.path.join(d, "meta")
-        p = subprocess.Popen(["timeout", "1500", "tlc", "-workers", "2", "-metadir", meta, "-cleanup", "-noGenerateSpecTE", "-config", "regex.cfg", "RegexNFA.tla"],
+        p = subprocess.Popen(["timeout", "1500"] + tlc_cmd(xss="512m") + ["-workers", "2", "-metadir", meta, "-cleanup", "-noGenerateSpecTE", "-config", "regex.cfg", "RegexNFA.tla"],
                              cwd=d, stdout=subprocess.PIPE, stderr=subprocess.STDOUT, text=True, env=dict(os.environ, JAVA_TOOL_OPTIONS="-Xss512m"))
         st = {"generated": 0, "distinct": 0, "diffs": [], "err": []}
         with open(tests, "w") as tf:
